@@ -49,11 +49,11 @@ Link(d) ==
 \* network layer: version 1; application message or network message; for this device, for everybody, for another network
 Net(npdu) ==
     LET n == N!Dec(npdu) IN
-    IF N!IsErr(n) THEN [k |-> IF n = N!Unspecified THEN "unspec" ELSE "bad", apdu |-> <<>>]
-    ELSE IF n.mtype # N!NONE THEN [k |-> "netmsg", apdu |-> <<>>]
-    ELSE IF n.dadr.k = "none"   THEN [k |-> "local",  apdu |-> n.data]
-    ELSE IF n.dadr.k = "global" THEN [k |-> "global", apdu |-> n.data]
-    ELSE [k |-> "remote", apdu |-> n.data]
+    IF N!IsErr(n) THEN [k |-> IF n = N!Unspecified THEN "unspec" ELSE "bad", apdu |-> <<>>, routed |-> FALSE]
+    ELSE IF n.mtype # N!NONE THEN [k |-> "netmsg", apdu |-> <<>>, routed |-> FALSE]
+    ELSE [k |-> CASE n.dadr.k = "none" -> "local" [] n.dadr.k = "global" -> "global" [] OTHER -> "remote",
+          apdu |-> n.data,
+          routed |-> n.sadr.k # "none"]         \* SNET/SADR present: the requester sits behind a router
 
 \* application layer: the fixed header of the APDU
 NoApp(k) == [k |-> k, inv |-> NONE, svc |-> NONE, maxresp |-> NONE, sa |-> FALSE, seq |-> NONE]
@@ -67,16 +67,19 @@ App(apdu) ==
          THEN [k |-> "ureq", inv |-> NONE, svc |-> a.service, maxresp |-> NONE, sa |-> FALSE, seq |-> NONE]
     ELSE NoApp("resp")
 
-\* the class of a datagram: [link, net, app, inv, svc, maxresp, sa]
+\* the class of a datagram: [link, net, app, inv, svc, maxresp, sa, routed]
+\* (routed: the transaction belongs to a station other than the IP sender -- SADR present, or a Forwarded-NPDU)
 Class(d) ==
     LET l == Link(d) IN
     IF l.k \notin {"ucast", "bcast", "fwd"}
-    THEN [link |-> l.k, net |-> "na", app |-> "na", inv |-> NONE, svc |-> NONE, maxresp |-> NONE, sa |-> FALSE]
+    THEN [link |-> l.k, net |-> "na", app |-> "na", inv |-> NONE, svc |-> NONE, maxresp |-> NONE, sa |-> FALSE, routed |-> FALSE]
     ELSE LET n == Net(l.npdu) IN
          IF n.k \notin {"local", "global", "remote"}
-         THEN [link |-> l.k, net |-> n.k, app |-> "na", inv |-> NONE, svc |-> NONE, maxresp |-> NONE, sa |-> FALSE]
+         THEN [link |-> l.k, net |-> n.k, app |-> "na", inv |-> NONE, svc |-> NONE, maxresp |-> NONE, sa |-> FALSE,
+               routed |-> l.k = "fwd"]
          ELSE LET a == App(n.apdu) IN
-              [link |-> l.k, net |-> n.k, app |-> a.k, inv |-> a.inv, svc |-> a.svc, maxresp |-> a.maxresp, sa |-> a.sa]
+              [link |-> l.k, net |-> n.k, app |-> a.k, inv |-> a.inv, svc |-> a.svc, maxresp |-> a.maxresp, sa |-> a.sa,
+               routed |-> n.routed \/ l.k = "fwd"]
 
 \* ---- Expected ------------------------------------------------------------------------------------------
 \* the three fixed headers are intact and the request is for this device: a reply is REQUIRED
@@ -135,6 +138,9 @@ WhoIsService == 8
 (* `want` / v.apdu are payloads compared for equality only (octets on the real device, tokens in the model).   *)
 (***************************************************************************)
 Key(e) == <<e.src, e.c.inv>>
+\* the key under which the device files the transaction: stations behind a router / a BBMD are station 3 ("elsewhere")
+Elsewhere == 3
+TKey(e) == <<IF e.c.routed THEN Elsewhere ELSE e.src, e.c.inv>>
 \* two elements of one batch that could be taken for the same transaction are left to NoLeftover / StillHealthy only
 UniqueKey(batch, i) == \A j \in (1..Len(batch)) \ {i} :
                            (Permitted(batch[j].c) /\ batch[j].src = batch[i].src) =>
@@ -166,7 +172,7 @@ BadNeverSilent(obs) ==
 Clean(res) == res.srv = {} /\ res.ntx = 0 /\ res.cli = 0 /\ res.timers = 0 /\ res.deferred = 0
 \* immediately for requests the device answered ...
 BadLeftoverImmediate(obs) ==
-    {i \in 1..Len(obs.batch) : Demanding(obs, i) /\ Complete(RepliesTo(obs.out0, obs.batch[i])) /\ Key(obs.batch[i]) \in obs.res0.srv}
+    {i \in 1..Len(obs.batch) : Demanding(obs, i) /\ Complete(RepliesTo(obs.out0, obs.batch[i])) /\ TKey(obs.batch[i]) \in obs.res0.srv}
 \* ... and for everything once the timeouts have elapsed (and again after the follow-up)
 LeftoverFinal(obs) == ~Clean(obs.res1) \/ obs.res2.srv # {} \/ obs.res2.ntx # 0 \/ obs.res2.timers # 0 \/ obs.res2.deferred # 0
 \* the batch positions a transaction that is still there belongs to: the last datagram with that requester and invoke
@@ -174,12 +180,12 @@ LeftoverFinal(obs) == ~Clean(obs.res1) \/ obs.res2.srv # {} \/ obs.res2.ntx # 0 
 LeftBehindBy(obs) ==
     LET keys  == obs.res1.srv \cup obs.res2.srv
         cand  == {i \in 1..Len(obs.batch) : Permitted(obs.batch[i].c)}
-        exact == {i \in cand : Key(obs.batch[i]) \in keys}
+        exact == {i \in cand : TKey(obs.batch[i]) \in keys}
         byid  == {i \in cand : obs.batch[i].c.inv \in {k[2] : k \in keys}}
         who   == IF exact # {} THEN exact ELSE byid
     IN IF ~LeftoverFinal(obs) THEN {}
        ELSE IF who = {} THEN {0}
-       ELSE {i \in who : \A j \in who : Key(obs.batch[j]) = Key(obs.batch[i]) => j <= i}
+       ELSE {i \in who : \A j \in who : TKey(obs.batch[j]) = TKey(obs.batch[i]) => j <= i}
 
 \* a companion is exempt when something before it in the batch may have switched communication off, or shares its key
 Exempt(obs, i) == Deaf(obs, i) \/ ~UniqueKey(obs.batch, i)
@@ -324,9 +330,9 @@ Elapse ==
     /\ res1' = Snapshot(txs', 0) /\ phase' = "fu"
     /\ UNCHANGED <<batch, pc, out0, out1, fuout, dcc, res0, res2, reenabled, escaped>>
 
-FuReq == [c |-> [link |-> "ucast", net |-> "local", app |-> "creq", inv |-> 200, svc |-> 12, maxresp |-> 5, sa |-> FALSE],
+FuReq == [c |-> [link |-> "ucast", net |-> "local", app |-> "creq", inv |-> 200, svc |-> 12, maxresp |-> 5, sa |-> FALSE, routed |-> FALSE],
           src |-> 1, role |-> "rp", want |-> <<"value", 200>>, body |-> "ok", dis |-> FALSE]
-FuDcc == [c |-> [link |-> "ucast", net |-> "local", app |-> "creq", inv |-> 199, svc |-> 17, maxresp |-> 5, sa |-> FALSE],
+FuDcc == [c |-> [link |-> "ucast", net |-> "local", app |-> "creq", inv |-> 199, svc |-> 17, maxresp |-> 5, sa |-> FALSE, routed |-> FALSE],
           src |-> 1, role |-> "g", want |-> <<"simple", 199>>, body |-> "ok", dis |-> FALSE]
 FollowUp ==
     /\ phase = "fu"
